@@ -31,7 +31,8 @@ EXTENDS TorsionLattice, TLC
 CONSTANTS R,          \* lattice radius
           P2Origin,   \* TRUE: p2 fixed at the origin
           Impl,       \* "tertiary" | "v2"
-          M1Order     \* "n1_x_b2" (as implemented in v2) | "b2_x_n1" (required)
+          M1Order,    \* "n1_x_b2" (as implemented in v2) | "b2_x_n1" (required)
+          Slice       \* TRUE: only the tuples with p1 = (1,0,0) (fast what-if / negative-control runs)
 
 VARIABLES pts,   \* the input 4-tuple
           job,   \* 1 = as given, 2 = reversed, 3 = mirrored
@@ -46,7 +47,7 @@ vars == <<pts, job, pc, b, q, n, xy, out>>
 Undef == 99
 Input == IF job = 1 THEN pts ELSE IF job = 2 THEN Rev(pts) ELSE MirX(pts)
 
-Init == /\ pts \in Tuples(R, P2Origin)
+Init == /\ pts \in IF Slice THEN { p \in Tuples(R, P2Origin) : p[1] = <<1, 0, 0>> } ELSE Tuples(R, P2Origin)
         /\ job = 1 /\ pc = "start"
         /\ b = <<>> /\ q = <<>> /\ n = <<>> /\ xy = <<>> /\ out = <<>>
 
@@ -144,12 +145,13 @@ MirrorNegates  == Done /\ NonDegenerate(pts) => out[3] = NegCell(out[1])
 V2ExactlyNegated == Done /\ NonDegenerate(pts) => out[1] = NegCell(IUPACCell(pts))
 
 \* lemmas about the declarative oracle itself (depend on pts only)
-OracleReversal    == NonDegenerate(pts) => NonDegenerate(Rev(pts)) /\ IUPACCell(Rev(pts)) = IUPACCell(pts)
-OracleMirror      == NonDegenerate(pts) => NonDegenerate(MirX(pts)) /\ IUPACCell(MirX(pts)) = NegCell(IUPACCell(pts))
-OracleRotation    == NonDegenerate(pts) => /\ IUPACCell(RotZ(pts)) = IUPACCell(pts)
+AtInput == pc = "start" /\ job = 1                \* evaluated once per input tuple
+OracleReversal    == AtInput /\ NonDegenerate(pts) => NonDegenerate(Rev(pts)) /\ IUPACCell(Rev(pts)) = IUPACCell(pts)
+OracleMirror      == AtInput /\ NonDegenerate(pts) => NonDegenerate(MirX(pts)) /\ IUPACCell(MirX(pts)) = NegCell(IUPACCell(pts))
+OracleRotation    == AtInput /\ NonDegenerate(pts) => /\ IUPACCell(RotZ(pts)) = IUPACCell(pts)
                                            /\ IUPACCell(RotX(pts)) = IUPACCell(pts)
-OracleTranslation == NonDegenerate(pts) => IUPACCell(Shift(pts, <<1, -2, 3>>)) = IUPACCell(pts)
-OracleNeverOrigin == NonDegenerate(pts) => ~(XNum(pts) = 0 /\ Trip(pts) = 0)
+OracleTranslation == AtInput /\ NonDegenerate(pts) => IUPACCell(Shift(pts, <<1, -2, 3>>)) = IUPACCell(pts)
+OracleNeverOrigin == AtInput /\ NonDegenerate(pts) => ~(XNum(pts) = 0 /\ Trip(pts) = 0)
 \* every one of the 16 cells is inhabited on the lattice (evaluated once)
 ASSUME P2Origin => { IUPACCell(p) : p \in NonDegTuples(1, TRUE) } = Cells
 =============================================================================
